@@ -15,6 +15,7 @@ import (
 	"verif/internal/exact"
 	"verif/internal/gen"
 	"verif/internal/h"
+	"verif/internal/refmodel"
 )
 
 // C16 — smart clipping closes cut rings around the box with the asked winding.
@@ -589,11 +590,11 @@ func init() {
 							c.Fail("", "smartclip.Geometry(Ring) is not nil although Ring returns nothing", d(out))
 						}
 					case len(out) == 1:
-						if !orb.Equal(g, out[0]) {
+						if !refmodel.EqualValues(g, out[0]) {
 							c.Fail("", "smartclip.Geometry(Ring) is not the single polygon Ring returns", d(out))
 						}
 					default:
-						if !orb.Equal(g, out) {
+						if !refmodel.EqualValues(g, out) {
 							c.Fail("", "smartclip.Geometry(Ring) differs from Ring", d(out))
 						}
 					}
@@ -767,7 +768,7 @@ func init() {
 								outNE = append(outNE, pg)
 							}
 						}
-						if !(len(outNE) == 0 && len(want) == 0) && !orb.Equal(outNE, want) {
+						if !(len(outNE) == 0 && len(want) == 0) && !refmodel.EqualValues(outNE, want) {
 							c.Fail("", "smartclip.MultiPolygon with no ring cut does not return exactly the polygons inside the box, unchanged", map[string]interface{}{"box": box, "multipolygon": in, "orientation": int(o), "output": sv(out)})
 						}
 						return
@@ -779,10 +780,10 @@ func init() {
 					g := smartclip.Geometry(b, cloneMP(mp), o)
 					c.Eval()
 					if len(out) == 1 {
-						if !orb.Equal(g, out[0]) {
+						if !refmodel.EqualValues(g, out[0]) {
 							c.Fail("", "smartclip.Geometry(MultiPolygon) is not the single polygon MultiPolygon returns", map[string]interface{}{"box": box, "multipolygon": in})
 						}
-					} else if len(out) > 1 && !orb.Equal(g, out) {
+					} else if len(out) > 1 && !refmodel.EqualValues(g, out) {
 						c.Fail("", "smartclip.Geometry(MultiPolygon) differs from MultiPolygon", map[string]interface{}{"box": box, "multipolygon": in})
 					}
 					c.Nontrivial(h.Mix(hashP(in[0][0]), h.HashFloats(box[:]...), uint64(np), uint64(o+2)))
